@@ -6,7 +6,7 @@ CFG = {
     "prop_file": "theories/Properties/C12.v",
     "theory_files": ["theories/Graph/Schema.v", "theories/Graph/SchemaProofs.v",
                      "theories/Graph/Instance.v", "theories/Graph/InstanceProofs.v",
-                     "theories/Graph/Values.v", "theories/Graph/ValuesProofs.v"],
+                     "theories/Graph/Values.v", "theories/Graph/ValuesProofs.v", "theories/Graph/SortedProofs.v"],
     "level_text": "Coq theorems, for every edit history over every well-formed node-type table, about an executable "
                   "model of graph.Instance (id table, scalar/array ports, parameter records per parameter kind, "
                   "producers, metadata tree), EncodeToAppSchema (dependencies sorted by the code's comparator on "
